@@ -112,6 +112,8 @@ type stageCase struct {
 	incap   int
 	mode    int // cancellation: 0 never, 1 consumer after k outputs, 2 producer after k hand-overs, 3 timer, 4 before start,
 	// 5 producer hands over k values, goes silent for ever (never closes), then cancel: the stage is blocked on a RECEIVE site
+	// 7 producer hands over exactly the elements the combinator needs to complete its output (TaskN: n, TaskWhile: up to
+	// its first match) and then stays OPEN AND IDLE for ever, no cancel: the output must be closed all the same
 	apply    func([]int) []int // Go-side reference of the combinator's list function (only used to place the abandon scenario)
 	abandonJ int               // >= 0: abandon scenario (runAbandon): the consumer reads exactly j values and never reads again
 	need     int               // abandon: inputs to hand over so that output j+1 is pending at a SEND site
@@ -241,6 +243,24 @@ func genStage(r *vhlib.Rng, which int) *stageCase {
 			}
 		}
 		c.pause = r.Chance(1, 3)
+		if (which == 1 || which == 3) && r.Chance(1, 3) {
+			// complete after m inputs? (TaskN: m = n <= len; TaskWhile: first match)
+			m := -1
+			if which == 1 && nn <= len(c.planned) {
+				m = nn
+			}
+			if which == 3 {
+				for i, v := range c.planned {
+					if p.eval(v) {
+						m = i + 1
+						break
+					}
+				}
+			}
+			if m >= 0 {
+				c.mode, c.k = 7, m
+			}
+		}
 	}
 	if c.nilIn {
 		c.planned = nil
@@ -276,7 +296,7 @@ func (c *stageCase) run() {
 				doCancel()
 			}
 			for _, v := range c.planned {
-				if c.mode == 5 && handed == c.k {
+				if (c.mode == 5 || c.mode == 7) && handed == c.k {
 					break
 				}
 				delay(rp)
@@ -289,6 +309,10 @@ func (c *stageCase) run() {
 				case <-stop:
 					return
 				}
+			}
+			if c.mode == 7 { // open and idle: nothing more is offered, nothing is closed, nobody cancels
+				<-stop
+				return
 			}
 			if c.mode == 5 { // silent producer: the input is never closed; only ctx can end the stage
 				delay(rp)
